@@ -251,6 +251,58 @@ func init() {
 					Desc: map[string]interface{}{"bytes": hexs(b), "result": res, "error": fmt.Sprint(err), "panic": fmt.Sprint(pv)}})
 			}
 		}
+		// ---- e_subject_dn_not_printable_characters: the attribute values of real subjects (zoo) and of crafted ones
+		{
+			seen := map[string]bool{}
+			addDN := func(rawSubject []byte, what string) {
+				var seq util.RawRDNSequence
+				rest, err := asn1.Unmarshal(rawSubject, &seq)
+				if err != nil || len(rest) > 0 {
+					return
+				}
+				var vals []string
+				for _, set := range seq {
+					for _, atv := range set {
+						vals = append(vals, string(atv.Value.Bytes))
+					}
+				}
+				c := &x509.Certificate{RawSubject: rawSubject, NotBefore: eff, NotAfter: eff.AddDate(0, 3, 0)}
+				st := runCertLint("e_subject_dn_not_printable_characters", c)
+				lst := cqBytesList(vals)
+				if len(vals) == 0 {
+					lst = "(@nil bytes)"
+				}
+				term := fmt.Sprintf("(%s, %s)", lst, cqZ(int64(st)))
+				if !seen[term] {
+					seen[term] = true
+					out.Add("dnprint", Case{Coq: term, Tag: fmt.Sprint(st), Desc: map[string]interface{}{"subject": what, "values": vals, "status": st}})
+				}
+			}
+			for _, zc := range certZoo() {
+				if strings.HasPrefix(zc.Class, "subject") || zc.Class == "name" {
+					addDN(zc.Cert.RawSubject, zc.File)
+				}
+			}
+			cn := []byte{0x06, 0x03, 0x55, 0x04, 0x03}
+			alpha := []byte{0x00, 0x1f, 0x20, 0x41, 0x7e, 0x7f, 0x80, 0x9f, 0xa0, 0xc2, 0xc3, 0xe0, 0xf0, 0xff}
+			for _, v := range allStrings(alpha, 2) {
+				for _, tag := range []byte{12, 19} {
+					raw := encTLV(0x30, encTLV(0x31, encTLV(0x30, concat(cn, encTLV(tag, v)))))
+					addDN(raw, fmt.Sprintf("crafted %x", v))
+				}
+			}
+			for i := 0; i < 300; i++ {
+				var rdns [][]byte
+				for k := 1 + rng.Intn(3); k > 0; k-- {
+					v := make([]byte, rng.Intn(6))
+					for j := range v {
+						v[j] = pick(rng, alpha)
+					}
+					rdns = append(rdns, encTLV(0x31, encTLV(0x30, concat(cn, encTLV(12, v)))))
+				}
+				addDN(encTLV(0x30, concat(rdns...)), "random")
+			}
+		}
 		// ---- what the parser lets through: validity fields of many shapes spliced into a real certificate; every
 		// GeneralizedTime the parser accepts must satisfy the guard the theorems need (at least 5 octets)
 		{
